@@ -65,7 +65,14 @@ func registerCustom(c *catalogue) {
 		func() fp.Hashable[time.Time] { return hash.ContraMap(hash.Number[int64](), unix) },
 		func(a, b time.Time) bool { return a.Unix() == b.Unix() }, showT))
 	// time.Time, FINER than eq.Time: the same instant in the same zone
-	zoned := func(t time.Time) string { return t.Format(time.RFC3339Nano) }
+	// (28 bytes: strings produced inside an instance live on the heap, where the bytes after the
+	// string are not under the harness's control; a length that is a multiple of 4 keeps a hash
+	// that reads whole words from looking at them, so a defect of that kind is reported through
+	// the window values of registerWindows, deterministically, and not through these)
+	zoned := func(t time.Time) string {
+		_, off := t.Zone()
+		return fmt.Sprintf("%020d|%+07d", t.UnixNano(), off)
+	}
 	expand1(c, custom("Fine[time.Time with zone]", vals(t0, t0.In(kst), t0.In(time.UTC), t0.Add(time.Nanosecond), t0.In(kst).Add(0)),
 		func() fp.Eq[time.Time] { return eq.ContraMap(eq.String, zoned) },
 		func() fp.Hashable[time.Time] { return hash.ContraMap(hash.String, zoned) },
@@ -96,4 +103,63 @@ func registerCustom(c *catalogue) {
 			})
 		},
 		fineB, showB))
+}
+
+// registerWindows adds string and []byte values that are equal but sit in DIFFERENT memory with a
+// DIFFERENT byte following them: windows parent[:k] of parents content+"XXXX", content+"YYYY",
+// content+"ZZZZ" built at run time (so that the compiler cannot merge them), for every length
+// k = 0..12 (every length mod 4 and mod 8). An instance that looks beyond the end of its argument
+// (word-wise loads with a wrong tail mask) gives Eqv-equal values different hashes — and does so
+// deterministically here, because the bytes after each value are the harness's.
+func registerWindows(c *catalogue) {
+	const content = "abcdefghijkl"
+	for k := 0; k <= 12; k++ {
+		k := k
+		parents := func() []string {
+			var out []string
+			for _, tail := range []string{"XXXX", "YYYY", "ZZZZ"} {
+				var b strings.Builder
+				b.WriteString(content[:k])
+				b.WriteString(tail)
+				out = append(out, b.String())
+			}
+			// a different value of the same length
+			var b strings.Builder
+			if k > 0 {
+				b.WriteString(content[:k-1])
+				b.WriteString("#")
+			}
+			b.WriteString("XXXX")
+			return append(out, b.String())
+		}
+		sw := custom(fmt.Sprintf("String/windows[len %d]", k),
+			func() []string {
+				var out []string
+				for _, p := range parents() {
+					out = append(out, p[:k])
+				}
+				return out
+			},
+			func() fp.Eq[string] { return eq.String }, func() fp.Hashable[string] { return hash.String },
+			func(a, b string) bool { return a == b }, func(s string) string { return fmt.Sprintf("%q", s) })
+		bw := custom(fmt.Sprintf("Bytes/windows[len %d]", k),
+			func() [][]byte {
+				var out [][]byte
+				for _, p := range parents() {
+					out = append(out, []byte(p)[:k])
+				}
+				return out
+			},
+			func() fp.Eq[[]byte] { return eq.Bytes }, func() fp.Hashable[[]byte] { return hash.Bytes },
+			func(a, b []byte) bool { return bytes.Equal(a, b) }, func(b []byte) string { return fmt.Sprintf("%q|cap%d", string(b), cap(b)) })
+		sw.n.head, bw.n.head = "String/windows", "Bytes/windows" // one key for all lengths
+		if k == 3 || k == 7 || k == 11 {
+			// every combinator over them (Option, Seq, Slice, Ptr, GoMap, FpMap, tuples, HCons, ContraMap)
+			expand1(c, sw)
+			expand1(c, bw)
+		} else {
+			c.add(sw.n)
+			c.add(bw.n)
+		}
+	}
 }
